@@ -33,6 +33,11 @@ impl IndexSet {
   #[verifier::external_body] pub fn intersection(&self, o: &IndexSet) -> (r: SetIter) ensures r.elems@ == self.view().intersect(o.view()) { unimplemented!() }
   #[verifier::external_body] pub fn difference(&self, o: &IndexSet) -> (r: SetIter) ensures r.elems@ == self.view().difference(o.view()) { unimplemented!() }
   #[verifier::external_body] pub fn symmetric_difference(&self, o: &IndexSet) -> (r: SetIter) ensures r.elems@ == symdiff(self.view(), o.view()) { unimplemented!() }
+  #[verifier::external_body] pub fn is_subset(&self, o: &IndexSet) -> (r: bool) ensures r == self.view().subset_of(o.view()) { unimplemented!() }
+  #[verifier::external_body] pub fn is_superset(&self, o: &IndexSet) -> (r: bool) ensures r == o.view().subset_of(self.view()) { unimplemented!() }
+  #[verifier::external_body] pub fn is_disjoint(&self, o: &IndexSet) -> (r: bool) ensures r == self.view().disjoint(o.view()) { unimplemented!() }
+  // `a == b` on IndexSet (order-insensitive equality of the dependency)
+  #[verifier::external_body] pub fn set_eq(&self, o: &IndexSet) -> (r: bool) ensures r == (self.view() =~= o.view()) { unimplemented!() }
   #[verifier::external_body] pub fn len(&self) -> (r: usize) ensures self.view().finite(), r == self.view().len() { unimplemented!() }
   #[verifier::external_body] pub fn is_empty(&self) -> (r: bool) ensures self.view().finite(), r == (self.view().len() == 0) { unimplemented!() }
   #[verifier::external_body] pub fn iter(&self) -> (r: It) ensures r.elems@ == self.view() { unimplemented!() }
@@ -106,11 +111,82 @@ def metadata_unit(plan):
     plan.dropped.append("set operations: of each solve() the statements inside `unsafe { }` after the three raw-pointer bindings (out_ptr, lhs_ptr, rhs_ptr) are copied verbatim into a function over `&mut MechSet, &MechSet, &MechSet`; IndexSet, its iterators, Value::kind and ValueKind are an ASSUMED specification (finite set of element identities)")
 
 
+RELATIONS = [
+    ("subset", "lhs_ptr.set.view().subset_of(rhs_ptr.set.view())"),
+    ("superset", "rhs_ptr.set.view().subset_of(lhs_ptr.set.view())"),
+    ("proper_subset", "(lhs_ptr.set.view().subset_of(rhs_ptr.set.view()) && !(lhs_ptr.set.view() =~= rhs_ptr.set.view()))"),
+    ("proper_superset", "(rhs_ptr.set.view().subset_of(lhs_ptr.set.view()) && !(lhs_ptr.set.view() =~= rhs_ptr.set.view()))"),
+    ("equals", "(lhs_ptr.set.view() =~= rhs_ptr.set.view())"),
+    ("not_equals", "!(lhs_ptr.set.view() =~= rhs_ptr.set.view())"),
+    ("disjoint", "lhs_ptr.set.view().disjoint(rhs_ptr.set.view())"),
+]
+
+
+def relations_unit(plan):
+    """the seven relation kernels (machines/set/src/relations/*.rs): statements of solve() after the three pointer bindings,
+    verbatim except `A == B` / `A != B` on IndexSet -> `A.set_eq(&B)` / `!A.set_eq(&B)`; postcondition = the mathematical definition"""
+    from vlib import read_repo, extract_fn, split_statements, VerusUnit, AnchorLost, find_code, match_brace
+    items, fns = [SET_PRELUDE], {}
+    items.append("""
+pub proof fn lemma_subset_len(a: Set<int>, b: Set<int>)
+  requires a.finite(), b.finite(), a.subset_of(b),
+  ensures a.len() <= b.len(), a.len() == b.len() ==> a =~= b,
+{
+  vstd::set_lib::lemma_len_subset(a, b);
+  if a.len() == b.len() { vstd::set_lib::lemma_subset_equality(a, b); }
+}
+""")
+    for rel_name, spec in RELATIONS:
+        rel = "machines/set/src/relations/%s.rs" % rel_name
+        name = "C14.relation.%s" % rel_name
+        ob = plan.ob(name, "verus", "proved", functions=[rel + ": solve"], what="out == the mathematical %s relation of the two element sets (under the assumed IndexSet specification)" % rel_name.replace("_", " "))
+        try:
+            text = read_repo(rel)
+            sig, body = extract_fn(text, "solve")
+            m = find_code(body, r"unsafe\s*\{")
+            if not m:
+                raise AnchorLost("solve() has no unsafe block")
+            inner = body[m.end() - 1:match_brace(body, m.end() - 1)]
+            stm = [vlib.strip_lead(x) for x in split_statements(inner)]
+            ptr = [x for x in stm if re.match(r"let (mut )?(out_ptr|lhs_ptr|rhs_ptr)\s*:", x)]
+            rest = [x for x in stm if not re.match(r"let (mut )?(out_ptr|lhs_ptr|rhs_ptr)\s*:", x)]
+            if len(ptr) != 3 or any("self." in x for x in rest):
+                raise AnchorLost("solve(): expected the three pointer bindings out_ptr / lhs_ptr / rhs_ptr followed by statements over them")
+            code = "\n  ".join(rest)
+            code = re.sub(r"(\w+\.set)\s*==\s*(\w+\.set)\b", r"\1.set_eq(&\2)", code)
+            code = re.sub(r"(\w+\.set)\s*!=\s*(\w+\.set)\b", r"!\1.set_eq(&\2)", code)
+        except AnchorLost as e:
+            plan.anchor_errors.append((name, str(e)))
+            ob.status, ob.detail = "undecided", "anchor lost: %s" % e
+            continue
+        fn = "rel_%s" % rel_name
+        items.append("""fn %s(out_ptr: &mut bool, lhs_ptr: &MechSet, rhs_ptr: &MechSet)
+  requires lhs_ptr.wf(), rhs_ptr.wf(),
+  ensures *final(out_ptr) == %s,
+{
+  proof {
+    if lhs_ptr.set.view().subset_of(rhs_ptr.set.view()) { lemma_subset_len(lhs_ptr.set.view(), rhs_ptr.set.view()); }
+    if rhs_ptr.set.view().subset_of(lhs_ptr.set.view()) { lemma_subset_len(rhs_ptr.set.view(), lhs_ptr.set.view()); }
+  }
+  %s
+}
+""" % (fn, spec, code))
+        fns[fn] = name
+    if fns:
+        items.append(vlib.verus_canary("canary_rel", "x: u64", []))
+        plan.verus.append(VerusUnit("c14_relations", vlib.verus_file(items), fns, ["canary_rel"]))
+        plan.dropped.append(relations_unit.__doc__.strip())
+
+
 def plan(plan, tier, seed):
     try:
         metadata_unit(plan)
     except Exception as e:
         plan.anchor_errors.append(("C14.metadata.*", str(e)))
+    try:
+        relations_unit(plan)
+    except Exception as e:
+        plan.anchor_errors.append(("C14.relation.*", repr(e)))
     with open(os.path.join(VERIF, "contracts", "C14", "kani_hash.rs")) as f:
         text = f.read()
     plan.harness_files[os.path.join(GEN, "C14", "kani_hash.rs")] = text
